@@ -121,6 +121,7 @@ def run(ctx):
     validation_gate(ctx)
     operand_gate(ctx)
     visited_set_balanced(ctx)
+    operator_truth_tables(ctx)
 
     run_e1(ctx, ENTRY, extra_auto=make_table_auto(ctx, agree))
 
@@ -290,3 +291,82 @@ def visited_set_balanced(ctx, rule='cycle-set-is-a-path-set'):
         r.fail(rule, 'value_of', 'a path from the recursive evaluate(..) to the return does not remove the element index from the cycle set', loc=c.loc)
     else:
         r.ok(rule, 'value_of', 'insert(index) ... evaluate(..) ... remove(index) on every path: the set holds exactly the elements of the current evaluation path', loc=c.loc)
+
+
+def operator_truth_tables(ctx, rule='comparison-truth-table'):
+    """Equals / GreaterThan / LessThan / GreaterThanOrEqual / LessThanOrEqual answer TRUE for exactly the comparison outcomes the
+    operator names; in particular never for Error (operands without a common ordered type, a missing attribute) or NotEquals.
+    The boolean handed to Variant::from is evaluated for every variant of ComparisonResult from its definitions and their guards."""
+    r, db = ctx.r, ctx.db
+    adt = db.adts.get('server::events::operator::ComparisonResult')
+    if not adt:
+        r.lost(rule, 'ComparisonResult', 'enum not found'); return
+    ALL = [v['name'] for v in adt['variants']]
+    WANT = {'eq': {'Equals'}, 'gt': {'GreaterThan'}, 'lt': {'LessThan'}, 'gte': {'GreaterThan', 'Equals'}, 'lte': {'LessThan', 'Equals'}}
+    n = 0
+    for fn, want in sorted(WANT.items()):
+        b = db.body('server::events::operator::' + fn)
+        if b is None:
+            r.lost(rule, fn, 'operator::%s not found' % fn); continue
+        F = ctx.facts(b)
+        intos = [c for c in b.calls() if c.callee.endswith('Into::into') and c.args and c.args[0][0] in ('mv', 'cp') and b.locals[c.args[0][1][0]] == 'bool']
+        if len(intos) != 1:
+            r.lost(rule, fn + ':value', 'expected one bool converted into the Variant result, found %d' % len(intos)); continue
+
+        def kname(s_):
+            while s_[0] in ('ref', 'deref'):
+                s_ = s_[1]
+            if s_[0] == 'k' and 'ComparisonResult::' in s_[1]:
+                return s_[1].rsplit('::', 1)[-1]
+            if s_[0] == 'agg' and s_[3] in ALL:
+                return s_[3]
+            return None
+
+        def is_subject(s_):
+            return 'compare_operands' in fmt_sym(b, s_)
+
+        def consistent(lits):
+            ok = set(ALL)
+            for l in lits:
+                if l[0] == 'cmp' and l[1] in ('eq', 'ne') and is_subject(l[2]) and kname(l[3]):
+                    ok &= {kname(l[3])} if l[1] == 'eq' else set(ALL) - {kname(l[3])}
+            return ok
+
+        unknown = []
+
+        def truth(local, depth=0):
+            out = set()
+            for d in b.defs().get(local, []):
+                if d[0] == 'stmt':
+                    base = consistent([l for l, e in F.literals_at(d[1], d[2])])
+                    rv = d[3]
+                    if rv[0] == 'use' and rv[1][0] == 'k':
+                        if rv[1][1] in ('1', 'true'):
+                            out |= base
+                    elif rv[0] == 'use' and rv[1][0] in ('cp', 'mv') and not rv[1][1][1] and depth < 4:
+                        out |= base & truth(rv[1][1][0], depth + 1)
+                    elif rv[0] == 'un' and rv[1] == 'Not' and rv[2][0] in ('cp', 'mv') and not rv[2][1][1] and depth < 4:
+                        out |= base & (set(ALL) - truth(rv[2][1][0], depth + 1))
+                    else:
+                        unknown.append(str(rv)[:60])
+                elif d[0] == 'call':
+                    base = consistent([l for l, e in F.literals_at(d[1])])
+                    c = d[2]
+                    m = re.search(r'PartialEq::(eq|ne)$', c.callee)
+                    a = [F.sym_operand(x) for x in c.args]
+                    if m and len(a) == 2 and is_subject(a[0]) and kname(a[1]):
+                        out |= base & ({kname(a[1])} if m.group(1) == 'eq' else set(ALL) - {kname(a[1])})
+                    else:
+                        unknown.append(c.callee)
+            return out
+        got = truth(intos[0].args[0][1][0])
+        n += 1
+        if unknown:
+            r.lost(rule, fn, 'the boolean result of operator::%s is computed in a way the rule cannot evaluate (%s)' % (fn, unknown[0])); continue
+        if got == want:
+            r.ok(rule, fn, 'operator::%s is TRUE exactly for %s' % (fn, sorted(want)), loc=b.loc)
+        else:
+            r.fail(rule, fn, 'operator::%s is TRUE for %s, expected %s: a where clause whose operands cannot be compared (Error) or are merely unequal lets events through'
+                   % (fn, sorted(got), sorted(want)), loc=b.loc)
+    r.count('comparison_operators', n)
+    r.floor(rule, 'comparison_operators', n, 5)
